@@ -328,6 +328,9 @@ class Inliner:
     def _block(self, fi: FuncInfo, stmts, stack, depth) -> list:
         out = []
         for s in stmts:
+            if isinstance(s, (ast.FunctionDef, ast.AsyncFunctionDef, ast.ClassDef)):
+                out.append(s)
+                continue
             s = copy.copy(s)
             for f in ("body", "orelse", "finalbody"):
                 if isinstance(getattr(s, f, None), list) and not isinstance(s, (ast.FunctionDef, ast.AsyncFunctionDef, ast.ClassDef)):
@@ -391,15 +394,61 @@ def _subst_in(stmt: ast.stmt, old: ast.AST, new: ast.AST) -> ast.stmt:
     return rb(stmt)
 
 
+def desugar_comprehensions(stmts: list) -> list:
+    """`x = {k: v for t in it if c}` -> `x = {}` + loop with `x[k] = v`; `x = [e for …]` -> loop with append.
+    Only whole-statement assignments to a plain name; the loop form is what the CFG based rules understand."""
+    out = []
+    for s in stmts:
+        if isinstance(s, (ast.FunctionDef, ast.AsyncFunctionDef, ast.ClassDef)):
+            out.append(s)  # nested definitions keep their identity (they are known to the program model by node)
+            continue
+        s = copy.copy(s)
+        for f in ("body", "orelse", "finalbody"):
+            if isinstance(getattr(s, f, None), list):
+                setattr(s, f, desugar_comprehensions(getattr(s, f)))
+        if isinstance(s, ast.Try):
+            hs = []
+            for h in s.handlers:
+                h = copy.copy(h)
+                h.body = desugar_comprehensions(h.body)
+                hs.append(h)
+            s.handlers = hs
+        if isinstance(s, ast.Assign) and len(s.targets) == 1 and isinstance(s.targets[0], ast.Name) and isinstance(s.value, (ast.DictComp, ast.ListComp)) and all(not g.is_async for g in s.value.generators):
+            name = s.targets[0].id
+            comp = s.value
+            init = ast.Assign(targets=[ast.Name(id=name, ctx=ast.Store())], value=ast.Dict(keys=[], values=[]) if isinstance(comp, ast.DictComp) else ast.List(elts=[], ctx=ast.Load()))
+            if isinstance(comp, ast.DictComp):
+                inner: ast.stmt = ast.Assign(targets=[ast.Subscript(value=ast.Name(id=name, ctx=ast.Load()), slice=comp.key, ctx=ast.Store())], value=comp.value)
+            else:
+                inner = ast.Expr(value=ast.Call(func=ast.Attribute(value=ast.Name(id=name, ctx=ast.Load()), attr="append", ctx=ast.Load()), args=[comp.elt], keywords=[]))
+            ast.copy_location(inner, s)
+            body = [inner]
+            for g in reversed(comp.generators):
+                for c in reversed(g.ifs):
+                    body = [ast.copy_location(ast.If(test=c, body=body, orelse=[]), s)]
+                body = [ast.copy_location(ast.For(target=g.target, iter=g.iter, body=body, orelse=[]), s)]
+            out.append(ast.copy_location(init, s))
+            out.extend(body)
+            continue
+        out.append(s)
+    return out
+
+
 _CACHE: dict = {}
 
 
-def inlined(prog: Program, fi: FuncInfo, *, keep=(), only=None, max_depth: int = 2) -> FuncInfo:
+def inlined(prog: Program, fi: FuncInfo, *, keep=(), only=None, max_depth: int = 2, desugar: bool = False) -> FuncInfo:
     """fi with same-module helper calls expanded (a new FuncInfo; fi itself when nothing was expanded)"""
-    key = (id(prog), fi.key, tuple(sorted(keep)), tuple(sorted(only)) if only else None, max_depth)
+    key = (id(prog), fi.key, tuple(sorted(keep)), tuple(sorted(only)) if only else None, max_depth, desugar)
     if key in _CACHE:
         return _CACHE[key]
     cur = fi
+    if desugar and any(isinstance(x, (ast.DictComp, ast.ListComp)) for x in ast.walk(fi.node)):
+        node = copy.copy(fi.node)
+        node.body = desugar_comprehensions(list(fi.node.body))
+        ast.fix_missing_locations(node)
+        cur = FuncInfo(fi.module, fi.qualname, node, fi.cls, fi.variant, fi.parent)
+        cur.origin = fi  # type: ignore[attr-defined]
     expanded: list[str] = []
     counter = 0
     for _ in range(max_depth):
